@@ -16,9 +16,16 @@ def digits(n):
     return [int(ch) for ch in str(n)] if n else []
 
 
+# ISO 4217, restated: what a currency given by name means (a name this table does not know is not judged)
+ISO_4217 = {"SEK": 752, "GBP": 826, "EUR": 978, "CHF": 756, "USD": 840, "DKK": 208, "NOK": 578, "PLN": 985, "CZK": 203, "HUF": 348,
+            "JPY": 392, "CAD": 124, "AUD": 36, "ISK": 352, "RON": 946, "BGN": 975}
+
+
 def spec_cfg(cfg):
     c = dict(DEFAULT_CFG)
     c.update(cfg or {})
+    if c.get("currency_name"):
+        c["currency"] = ISO_4217.get(c["currency_name"].upper(), 0)
     return {"pre": c["pre"], "cur": digits(c["currency"]), "password": digits(c["password"]),
             "tid": [ord(ch) for ch in (c["terminal_id"] or "00000000")], "timeout": c["read_card_timeout"], "max": c["max"],
             "slow": 500 * (_CAL["v"][0] if "v" in _CAL else 60)}
@@ -50,6 +57,9 @@ def flatten(out_path, flat_path, first=0):
             o = json.loads(line)
             outs.append(o)
             w.write(json.dumps({"e": "reset", "sc": first + i + 1, "cfg": spec_cfg(o.get("config"))}) + "\n")
+            cc_ev = next((e for e in o["trace"] if e.get("e") == "config_currency"), None)
+            if cc_ev and (not cc_ev["accepted"] or cc_ev["name"].upper() not in ISO_4217):
+                continue          # a currency name the library rejects, or one the restated table does not list: nothing to judge
             for e in o["trace"]:
                 if e.get("e") == "harness-error":
                     raise vlib.ToolError("harness error in scenario %d: %s" % (first + i + 1, e.get("text")))
